@@ -78,6 +78,7 @@ class SimPool:
         self.lock = threading.Lock()
         self.counter = 0
         self.restarts = 0
+        self.one_shot = 0
         self.runs = 0
         for hs in hashseeds:
             q = queue.Queue()
@@ -89,8 +90,6 @@ class SimPool:
 
     def run(self, plan, twin=None, want_events=False, step_budget=None, event_cap=None):
         hs = plan.get("hashseed", 0)
-        if hs not in self.queues:
-            raise HarnessError("no worker for hashseed %r" % (hs,))
         with self.lock:
             self.counter += 1
             self.runs += 1
@@ -100,6 +99,25 @@ class SimPool:
             req["step_budget"] = step_budget
         if event_cap:
             req["event_cap"] = event_cap
+        if hs not in self.queues:
+            # a hash seed without a standing worker (the hash-seed sweep, a replay): a fresh
+            # interpreter started with exactly that PYTHONHASHSEED, used once
+            w = SimWorker(hs)
+            try:
+                res = w.call(req)
+            finally:
+                w.close()
+            with self.lock:
+                self.one_shot += 1
+            try:
+                with open(out_path, "rb") as f:
+                    data = f.read()
+            finally:
+                try:
+                    os.unlink(out_path)
+                except OSError:
+                    pass
+            return res, data
         q = self.queues[hs]
         w = q.get()
         try:
